@@ -322,6 +322,7 @@ func init() {
 				LockWindow:   pickD(r, 3*time.Nanosecond, 30*time.Second, 5*time.Minute, 2*time.Hour),
 				LockDuration: pickD(r, 2*time.Nanosecond, 10*time.Second, time.Minute, 12*time.Hour, 12*time.Hour, time.Duration(math.MaxInt64)),
 				OneTimeTOTP:  r.Intn(2) == 0, LogoutMethod: "DELETE", Err500: r.Intn(2) == 0,
+				ClockZone: []int{0, -8 * 3600, 9*3600 + 1800}[unit%3], ZoneLessStore: unit%2 == 0,
 				AppHooksFirst: unit%3 == 0, // the application's listeners are registered before the modules' and run first
 				CustomHasher:  unit%4 == 0} // a quarter of the units: the application's own hasher with its own error values
 			switch r.Intn(4) {
